@@ -52,3 +52,19 @@ Theorem C12_prover_capacity_independent : forall (K : Fld), FldOk K -> forall (M
   prove_core K M bits cap1 g1 values promises blindings nn ch = prove_core K M bits cap2 g2 values promises blindings nn ch.
 Proof. exact prover_capacity_independent. Qed.
 Print Assumptions C12_prover_capacity_independent.
+
+(** Verifier side: the value of the batch's final product does not depend on the capacity of the generator table the
+    verifier owns.  Two tables that agree on the first max_mn vector generators (C11: every capacity is a prefix view of
+    the same chains) give the same product, whatever lies beyond and whatever zero padding is applied up to the table size. *)
+From BP Require Import Proofs.BatchP Proofs.BatchEquivP Proofs.CapacityVP.
+Theorem C12_verifier_capacity_independent : forall (K : Fld), FldOk K -> forall (M : Mod K), ModOk K M ->
+  forall (H : M) (Gb G1 Hv1 G2 Hv2 : list M) (mx pad1 pad2 : nat) (bs : list (bmember K M)),
+  Forall (b_ok K M Gb mx) bs ->
+  mx <= length G1 -> mx <= length Hv1 -> mx <= length G2 -> mx <= length Hv2 ->
+  firstn mx G1 = firstn mx G2 -> firstn mx Hv1 = firstn mx Hv2 ->
+  let acc := acc_all K (acc_init K mx (length Gb)) (map (b_terms K M) bs) in
+  let dyn := flat_map (dyn_of K M) (map (b_pts K M) bs) ++ Gb ++ [H] in
+  vadd M (msm (fst (final_msm K acc pad1)) (interleaveM K M G1 Hv1)) (msm (snd (final_msm K acc pad1)) dyn)
+  = vadd M (msm (fst (final_msm K acc pad2)) (interleaveM K M G2 Hv2)) (msm (snd (final_msm K acc pad2)) dyn).
+Proof. exact verifier_capacity_independent. Qed.
+Print Assumptions C12_verifier_capacity_independent.
